@@ -1,7 +1,7 @@
 ---------------------------- MODULE Trace_Overlay ----------------------------
 (* Trace validation for C01: recorded Union / Intersection / Difference /    *)
 (* SymmetricDifference / UnaryUnion / UnionMany results against Overlay.tla. *)
-EXTENDS Overlay, Validity, Json, IOUtils
+EXTENDS Overlay, Validity, DCEL, Json, IOUtils
 
 Trace == ndJsonDeserialize(IOEnv.VTRACE)
 S == 64
@@ -13,6 +13,7 @@ Check(e) ==
   ELSE IF ~PartsValid(e.a) \/ ~PartsValid(e.b) THEN "skip:invalid-operand"
   ELSE LET ga == Merge(e.a) gb == Merge(e.b) IN
   IF e.gp /\ ~GeneralPosition(ga,gb) THEN "skip:not-general-position"
+  ELSE IF e.kind = "dcel" THEN CheckDCEL(e.dcel, ga, gb)
   ELSE IF e.err # "" THEN "error-returned"
   ELSE IF ~e.rvalid THEN "result-invalid"
   ELSE CheckOverlay(ga, gb, e.op, e.res, e.rtype)
